@@ -455,6 +455,17 @@ def run_routes(case):
                 if sim.face.running:
                     sim.face.shutdown()
                 sim.vl.settle()
+            elif conn == 0 and case.get('end') == 'transport-error' and sim.main_task is not None:
+                # the connection ends because the transport breaks: face.run() raises, and so does main_loop()
+                sim.vl.call(sim.face.fail, BrokenPipeError('transport broke'))
+                sim.vl.settle()
+                sim.vl.advance(0.01)
+                if not sim.main_task.done():
+                    r.bad(f'C17/{fe}/routes/main-loop', 'main_loop still running after the transport failed')
+                    break
+                if not sim.main_task.cancelled():
+                    sim.main_task.exception()       # (retrieved: the application saw it)
+                sim.vl.settle()
             else:
                 err = sim.finish()
                 if err:
@@ -476,7 +487,7 @@ def _routes_case():
                                   'routes': st.lists(S.name(1, 3, 8, allow_digest_types=False), min_size=1, max_size=4,
                                                      unique_by=str),
                                   'latency': st.sampled_from([0, 1, 5]), 'open_delay': st.sampled_from([0, 20]),
-                                  'late': st.integers(0, 2), 'during': st.booleans(), 'end': st.sampled_from(['shutdown', 'cancel'])})
+                                  'late': st.integers(0, 2), 'during': st.booleans(), 'end': st.sampled_from(['shutdown', 'cancel', 'transport-error'])})
 
 
 # ---- parse_response round trip -----------------------------------------------------------------------------------------------
